@@ -653,6 +653,34 @@ pub fn gen_not_expr(t: &mut Tape, tree: &TreeSpec) -> Expr {
     merge_lits(&normalize(&e, true))
 }
 
+/// Table keys are generated relative to the tree root; the filters see paths relative to the walk
+/// base.  Re-spell the keys for a base inside (`Sub`) or above (`Parent`) the tree, so that the
+/// verdicts actually fire there.
+pub fn rebase_layers(layers: Vec<Layer>, base: &Base) -> Vec<Layer> {
+    layers
+        .into_iter()
+        .map(|l| match l {
+            Layer::Table(t) => Layer::Table(
+                t.into_iter()
+                    .filter_map(|(k, v)| match base {
+                        Base::Sub(d) => {
+                            if k == *d {
+                                Some((String::new(), v))
+                            }
+                            else {
+                                k.strip_prefix(&format!("{}/", d)).map(|r| (r.to_string(), v))
+                            }
+                        },
+                        Base::Parent => Some((if k.is_empty() { "t".to_string() } else { format!("t/{}", k) }, v)),
+                        _ => Some((k, v)),
+                    })
+                    .collect(),
+            ),
+            other => other,
+        })
+        .collect()
+}
+
 pub fn gen_layers(t: &mut Tape, tree: &TreeSpec, min: usize) -> Vec<Layer> {
     let n = (min + t.weighted(&[25, 35, 25, 15])).min(MAX_LAYERS);
     (0..n)
